@@ -26,7 +26,7 @@ META = {
 
 def shards(tier):
     if tier == "quick":
-        return [{"label": "files%d" % i, "n": 500} for i in range(12)]
+        return [{"label": "files%d" % i, "n": 1000} for i in range(14)]
     return [{"label": "files%d" % i, "n": 25000} for i in range(16)]
 
 
